@@ -624,7 +624,12 @@ template <typename T, typename C, typename Mk, typename MkMpi> Sx run_ops(Spec<T
             if (sp.iexc) in.exceptions(std::ios::failbit | std::ios::badbit);     // a user who wants read errors reported by exceptions
             C n(chk);
             // (with exceptions enabled a read error arrives as std::ios_base::failure instead of a failed stream: the same observation)
-            try { n = reload<T>(chk, in); } catch (std::ios_base::failure const&) { in.exceptions(std::ios::goodbit); in.setstate(std::ios::failbit); }
+            // (a text that holds inf / nan cannot be read back; what the reader then does - fail, or throw from a garbage count - is not
+            // defined by any property: one observation)
+            bool const unreadable = t.str().find("inf") != std::string::npos || t.str().find("nan") != std::string::npos;
+            try { n = reload<T>(chk, in); }
+            catch (std::ios_base::failure const&) { in.exceptions(std::ios::goodbit); in.setstate(std::ios::failbit); }
+            catch (std::exception const&) { if (!unreadable) throw; in.exceptions(std::ios::goodbit); in.setstate(std::ios::failbit); }
             if (in.fail()) { out.add(Sx::list({Sx::sym("reload"), Sx::sym("stream_failed")})); break; }
             chk = n;
             out.add(Sx::list({Sx::sym("reload"), Sx::sym("ok")}));
